@@ -27,7 +27,7 @@ def _cmd_go(d):
 def run(R, exe, work, seed, tier):
     T = TIERS[tier]
     fens = []
-    for f in ("rules.fen", "extremal.fen", "explosive.fen"):
+    for f in ("rules.fen", "extremal.fen"):
         fens += vlib.load_fens(os.path.join(vlib.VERIF, "seeds", f))
     fl = os.path.join(work, "poison_fens.txt")
     open(fl, "w").write("\n".join(fens) + "\n")
@@ -68,7 +68,7 @@ def run(R, exe, work, seed, tier):
                         "DIFFERENT position '%s' (never entered by that search); 'go depth %s' there answers %s; %s" % (
                             [n[1] for n in names], e.get("first"), e.get("d1"), e.get("fen"), e.get("d2"), e.get("mv", "with a panic"), rj["diag"][:300]),
                         {"kind": "script", "level": "process", "script": script})
-    cov = {"seed_positions": "rules / extremal / explosive seeds + %d synthetic positions per shard with an en-passant capture at the root" % T["synth"],
+    cov = {"seed_positions": "rules / extremal seeds + %d synthetic positions per shard with an en-passant capture at the root" % T["synth"],
            "searches": searches, "table_entries_checked": entries, "entries_under_a_key_of_no_entered_position": orphans,
            "look_alike_positions_judged_by_TLC": judged, "depth": T["depth"]}
     if orphans:
